@@ -334,17 +334,29 @@ func tqOracle(tc tqCase, o *tqObs) (c06, c15 []string) {
 			c15 = append(c15, fmt.Sprintf("an object was requested %d times with lfs.transfer.maxretries=%d", n, tc.MaxRetries))
 		}
 	}
-	// expired actions are never used
-	att3 := map[string]int{}
-	expiredWindow := map[string]bool{}
-	for _, b := range o.Batches {
-		for _, oid := range b.Oids {
-			k := att3[oid]
-			att3[oid]++
-			expiredWindow[oid] = b.Call == "200" && tc.entry(tqOidIndex(oid), k) == "expired"
+	// expired actions are never used: a transfer is only ever started on the LATEST batch answer for its object, and
+	// when that answer's action had run out (in any of the five spellings, `expires_in` winning over `expires_at`)
+	// the adapter must not have been called at all
+	for _, cl := range o.Calls {
+		att3 := 0
+		lastExpired, seen := false, false
+		for _, b := range o.Batches {
+			if b.At > cl.Start {
+				break
+			}
+			for _, oid := range b.Oids {
+				if oid == cl.Oid {
+					lastExpired = b.Call == "200" && tc.entry(tqOidIndex(oid), att3) == "expired"
+					seen = true
+					att3++
+				}
+			}
+		}
+		if seen && lastExpired {
+			c15 = append(c15, fmt.Sprintf("an action whose advertised expiry had passed was used instead of being re-requested (expiry style %d)", tc.ExpStyle))
+			break
 		}
 	}
-	_ = expiredWindow
 	errText := strings.Join(o.Errors, "\n")
 	// upload of an object whose local file is missing while the server wants it: the queue gives up
 	// as a whole and reports that; every object it did not get to is covered by that error
